@@ -60,9 +60,9 @@ def describe(c):
 
 # ------------------------------------------------------------------ abstract alphabet (C06)
 
-ALPHABET = ["fullA", "fullB", "fullAdup", "fullPlaceholder", "fullC_sameRV", "law", "journal",
+ALPHABET = ["fullA", "fullB", "fullAdup", "fullArecap", "fullPlaceholder", "fullC_sameRV", "law", "law2", "journal",
             "shortA", "shortAmbig", "shortForeign", "shortAnte",
-            "supraA", "supraUnknown", "supraAmbig", "refA", "refNone",
+            "supraA", "supraUnknown", "supraAmbig", "supraRecap", "refA", "refNone",
             "idValid", "idInvalid", "idNoPin", "idNonNumeric", "unknown"]
 
 
@@ -74,6 +74,14 @@ def make(sym):
         return F.case_citation(volume="1", reporter="U.S.", page="10", metadata={"plaintiff": "Alpha", "defendant": "Smith"})
     if sym == "fullAdup":
         return F.case_citation(volume="1", reporter="U.S.", page="10", metadata={"plaintiff": "Alpha", "defendant": "Smith", "year": "1999"})
+    if sym == "fullArecap":
+        # the same opinion as A cited again under a different caption
+        return F.case_citation(volume="1", reporter="U.S.", page="10", metadata={"plaintiff": "Quux", "defendant": "Zed"})
+    if sym == "supraRecap":
+        return F.supra_citation("supra,", metadata={"antecedent_guess": "Quux"})
+    if sym == "law2":
+        # a different section of the same code as `law`
+        return F.law_citation("Mass. Gen. Laws ch. 1, § 3", reporter="Mass. Gen. Laws", groups={"chapter": "1", "section": "3"})
     if sym == "fullB":
         return F.case_citation(volume="2", reporter="F.3d", page="20", metadata={"plaintiff": "Beta", "defendant": "Jones"})
     if sym == "fullC_sameRV":
@@ -251,8 +259,11 @@ def expected_membership(cits, max_pages=None):
                         if not m:
                             ok = False
                         else:
-                            pin, page = int(m[1]), int(pg)
-                            if pin < page or pin > page + mx:
+                            try:
+                                pin, page = int(m[1]), int(pg)
+                                if pin < page or pin > page + mx:
+                                    ok = False
+                            except ValueError:
                                 ok = False
                 if ok:
                     target = prev
@@ -327,6 +338,9 @@ def symbol_lists(ctx, exhaustive_len, n_sampled, max_len):
         ["fullPlaceholder", "idNoPin", "fullPlaceholder", "supraA"],
         ["fullA", "unknown", "idNoPin"],
         ["fullA", "refA", "idValid", "idInvalid", "idNoPin"],
+        ["fullA", "supraRecap", "fullArecap"],          # look-ahead: a later re-caption must not resolve an earlier supra
+        ["fullA", "fullB", "supraA", "fullArecap", "supraRecap"],
+        ["law", "law2", "idNoPin"],                     # two sections of one code are different resources
     ]
     lists = corpus + lists
     for _ in range(n_sampled):
